@@ -1,4 +1,6 @@
 import SoxrModel.Cr.Linear
+import SoxrModel.Cr.Shift
+import SoxrModel.Cr.Schedule
 /-!
 # C12 (engine half): superposition and homogeneity for the engine model itself
 
@@ -59,6 +61,47 @@ theorem homogeneity_runs [Mul α] (K : Kern α) (hK : KSmul K) (z a : α) (hz : 
   rw [q1, q2]
   exact engine_homogeneity K hK z a hz plan _ _ x s1 s2 p1 p2 l
 
+/-- every state a run reaches: what it has delivered plus what waits in its output FIFO is a canonical stream of what
+    it accepted followed by end-of-input padding -/
+theorem run_state (K : Kern α) (z : α) (owed : Nat → Nat) (plan : Plan) (hwf : PlanWF plan) (ops : List (DOp α)) (F D : List α)
+    (e : DEng α) (r : DRuns K z owed (DEng.fresh z plan) ops F D e) :
+    ∃ k src, CInv K z plan (F ++ List.replicate k z) src ∧ D ++ e.out = src := by
+  have i := druns_inv K z owed plan ops _ _ _ _ _ _ (fresh_einv K z plan hwf) r
+  simp only [List.nil_append] at i
+  obtain ⟨pad, src, hpad, hp, hsrc⟩ := i
+  obtain ⟨k, rfl⟩ := hpad.1
+  exact ⟨k, src, hp.toCInv, hsrc⟩
+
+/-- **Shift covariance at the implementation period, any schedules, any kernels.**  `planShift` (the executable the
+    driver runs on every exported plan; it reports only what `chain` accepts) says `(d, d_out, hor)` for the plan.  Two
+    runs of the freshly initialised engine, with ANY call schedules, ended or not: one over `x`, one over `x` behind
+    ANY `d` frames.  Beyond output frame `hor` the second output stream is the first delayed by exactly `d_out` frames
+    (the two are prefix-comparable there: they agree as far as both have got).  No linearity of the kernels is used:
+    a kernel is a function of stage configuration, phase tags and window, and the same tags meet the same windows. -/
+theorem shift_covariance_runs (K : Kern α) (z : α) (owed : Nat → Nat) (plan : Plan) (hwf : PlanWF plan) (bound d dout hor : Nat)
+    (hp : planShift bound plan = some (d, dout, hor))
+    (ops₁ ops₂ : List (DOp α)) (x pfx D₁ D₂ : List α) (e₁ e₂ : DEng α) (hl : pfx.length = d)
+    (r₁ : DRuns K z owed (DEng.fresh z plan) ops₁ x D₁ e₁) (r₂ : DRuns K z owed (DEng.fresh z plan) ops₂ (pfx ++ x) D₂ e₂) :
+    Comparable ((D₁ ++ e₁.out).drop hor) ((D₂ ++ e₂.out).drop (hor + dout)) := by
+  obtain ⟨k1, s1, c1, q1⟩ := run_state K z owed plan hwf ops₁ x D₁ e₁ r₁
+  obtain ⟨k2, s2, c2, q2⟩ := run_state K z owed plan hwf ops₂ (pfx ++ x) D₂ e₂ r₂
+  rw [q1, q2]
+  refine planShift_sound K z bound plan d dout hor hp _ _ s1 s2 ?_ c1 c2
+  have e : (pfx ++ x ++ List.replicate k2 z).drop d = x ++ List.replicate k2 z := by
+    rw [List.append_assoc, ← hl, List.drop_left]
+  rw [e]
+  exact comparable_append_left x (replicate_comparable z k1 k2)
+
+/-- equally long streams beyond the horizon are equal there, sample by sample -/
+theorem shift_covariance_runs_eq (K : Kern α) (z : α) (owed : Nat → Nat) (plan : Plan) (hwf : PlanWF plan) (bound d dout hor : Nat)
+    (hp : planShift bound plan = some (d, dout, hor))
+    (ops₁ ops₂ : List (DOp α)) (x pfx D₁ D₂ : List α) (e₁ e₂ : DEng α) (hl : pfx.length = d)
+    (r₁ : DRuns K z owed (DEng.fresh z plan) ops₁ x D₁ e₁) (r₂ : DRuns K z owed (DEng.fresh z plan) ops₂ (pfx ++ x) D₂ e₂)
+    (hlen : (D₂ ++ e₂.out).length = (D₁ ++ e₁.out).length + dout) :
+    (D₁ ++ e₁.out).drop hor = (D₂ ++ e₂.out).drop (hor + dout) := by
+  apply (shift_covariance_runs K z owed plan hwf bound d dout hor hp ops₁ ops₂ x pfx D₁ D₂ e₁ e₂ hl r₁ r₂).eq_of_length
+  simp only [List.length_drop]; omega
+
 /-! ## non-vacuity: the window-sum kernel over the integers is additive and homogeneous -/
 
 def sumK : Kern Int := { eval := fun _ _ _ _ w => w.sum }
@@ -85,5 +128,13 @@ example : KSmul sumK := by
   induction w with
   | nil => simp [lsmul]
   | cons b t ih => simp only [lsmul, List.map_cons, List.sum_cons] at ih ⊢; rw [ih, Int.mul_add]
+
+/-! ## non-vacuity of `planShift`: a half-band decimator feeding a 2/3 poly-phase stage -/
+
+def exPlan : Plan :=
+  [({ kind := .clocked, prePost := 7, den := 2, step := 3, poly0 := true, taps := 8 }, { occ := 4, clk := 0 }),
+   ({ kind := .half, prePost := 12 }, { occ := 6 })]
+
+example : planShift 1000 exPlan = some (6, 2, 5) := by decide
 
 end Soxr.Properties.C12Engine
